@@ -74,6 +74,8 @@ def check(run):
     # boundary of the modulus — ordinary-looking 254-bit numbers on which a fast path keyed on raw limbs would fire
     special = gen.MONTGOMERY_SMALL + gen.NEAR_MODULUS[:: (7 if quick else 1)]
     pairs += [(a, b) for a in special for b in special] + [(a, b) for a in special for b in (1, 2, 3, P - 1)] + [(a, b) for b in special for a in (1, 7, P - 1)]
+    # carry chains: limb sums of exactly 2^64 - 1 with an incoming carry, in the canonical and in the Montgomery representation
+    pairs += gen.carry_pairs(rng, 6 if quick else 40)
     for name in OPS:
         for a, b in pairs:
             if name == "Pow" and b > 2 ** 64:
